@@ -10,6 +10,7 @@ shadow-ledger oracle of `harness/c04` against linear twins.
 import Verif.Lemmas.Updates
 import Verif.Lemmas.UpdatesLedger
 import Verif.Props.C01
+import Verif.Lemmas.Listeners
 
 namespace Verif.C04
 open Verif.Chain
@@ -282,5 +283,87 @@ example :
 
 example : Verif.Elements.WF (ledgerOfChain Dre [1, 0]) (Dre 2) ∧ Verif.Elements.WF (ledgerOfChain Dre [3, 1, 0]) (Dre 4) := by
   decide
+
+
+/-! ### reorg listeners come and go (`OnReorg` / its cancel function)
+
+`notified_iff_tip_changed` above says WHEN the listeners are called; these say WHO is called.  The
+128-bit random key of a registration is a parameter of the model; `Fresh` is the assumption that
+no key is handed out twice (collision probability 2⁻¹²⁸ per pair). -/
+
+open Verif.Listeners in
+/-- **who is notified**: after any history of registrations and cancellations with fresh keys,
+the listeners called on a tip change are exactly the live registrations — a registration that
+was not cancelled is called, whatever other listeners did before or after it (in particular a
+later registration never displaces it), and a cancelled one is not -/
+theorem listeners_exactly_live (ops : List Op) (hf : Fresh [] ops) :
+    (run Reg.empty ops).entries = specRun [] ops ∧
+    (∀ pre post k l, ops = pre ++ Op.reg k l :: post → (∀ k', Op.cancel k' ∈ post → k' ≠ k) →
+      l ∈ (run Reg.empty ops).notified) ∧
+    (∀ pre post k, ops = pre ++ Op.cancel k :: post →
+      ∀ e ∈ (run Reg.empty ops).entries, e.1 ≠ k ∨ k ∉ regKeys pre) := by
+  have href := run_eq_spec ops Reg.empty [] (by simp [Reg.empty]) hf
+  refine ⟨href, ?_, ?_⟩
+  · intro pre post k l hops hc
+    have : (k, l) ∈ specRun [] ops := by
+      subst hops
+      simp only [specRun, List.foldl_append, List.foldl_cons]
+      exact spec_keeps post _ (k, l) (by simp [specStep]) (by simpa using hc)
+    rw [Reg.notified, href]
+    exact List.mem_map.mpr ⟨(k, l), this, rfl⟩
+  · intro pre post k hops e he
+    by_cases hk : k ∈ regKeys pre
+    · left
+      -- the key was handed out before the cancel: after the cancel no entry carries it
+      subst hops
+      rw [href] at he
+      simp only [specRun, List.foldl_append, List.foldl_cons] at he
+      -- freshness of the suffix relative to the keys used by the prefix
+      have hsplit : ∀ (pre : List Op) (used : List Nat) (rest : List Op), Fresh used (pre ++ rest) →
+          ∃ used', Fresh used' rest ∧ (∀ x, x ∈ used ∨ x ∈ regKeys pre → x ∈ used') := by
+        intro pre
+        induction pre with
+        | nil => intro used rest h; exact ⟨used, h, by intro x hx; simpa [regKeys] using hx⟩
+        | cons op pre ih =>
+          intro used rest h
+          cases op with
+          | reg k' l' =>
+            obtain ⟨_, h'⟩ := h
+            obtain ⟨u, hu, hsub⟩ := ih (k' :: used) rest h'
+            refine ⟨u, hu, ?_⟩
+            intro x hx
+            apply hsub
+            rcases hx with hx | hx
+            · exact Or.inl (List.mem_cons_of_mem _ hx)
+            · simp only [regKeys, List.mem_cons] at hx
+              rcases hx with rfl | hx
+              · exact Or.inl List.mem_cons_self
+              · exact Or.inr hx
+          | cancel k' =>
+            obtain ⟨u, hu, hsub⟩ := ih used rest h
+            exact ⟨u, hu, by intro x hx; apply hsub; simpa [regKeys] using hx⟩
+      obtain ⟨used', hfr, hsub⟩ := hsplit pre [] (Op.cancel k :: post) hf
+      exact spec_drops post _ used' k (by
+        intro e' he'
+        simp only [specStep, List.mem_filter] at he'
+        simpa using he'.2) (hsub k (Or.inr hk)) hfr e he
+    · exact Or.inr hk
+
+open Verif.Listeners in
+/-- the premises are satisfiable and the statement is not vacuous: A and B register, A cancels,
+C registers — B and C are called, A is not -/
+example : Fresh [] [.reg 10 0, .reg 11 1, .cancel 10, .reg 12 2] ∧
+    (run Reg.empty [.reg 10 0, .reg 11 1, .cancel 10, .reg 12 2]).notified = [2, 1] := by
+  refine ⟨by simp [Fresh], by decide⟩
+
+open Verif.Listeners in
+/-- **freshness is needed** (the shape of a seeded faulty variant): if the key is derived from
+the size of the map, the same history makes C take B's key and B is never called again -/
+theorem size_keys_displace_a_listener :
+    let r1 := Reg.empty.register (sizeKey Reg.empty) 0
+    let r2 := r1.register (sizeKey r1) 1
+    let r3 := r2.cancel (sizeKey Reg.empty)
+    let r4 := r3.register (sizeKey r3) 2
+    r4.notified = [2] ∧ 1 ∉ r4.notified := by decide
 
 end Verif.C04
